@@ -439,6 +439,7 @@ func runC04(e *Engine, r *Report) {
 	ruleReplaySetsState(e, r)
 	ruleSnapshotRecordKeepsLogEnd(e, r)
 	ruleTanFileInUse(e, r)
+	ruleTanSyncSameDB(e, r)
 }
 
 // runPebbleSync: every pebble write in the kv wrapper takes the options value
